@@ -462,6 +462,34 @@ example :
     reduceInnerOp List.sum [(2, 1)] [(3, 2)] 0 (fun i => [0, 3, 1, 4, 2, 5].getD i 0) = [3, 12] ∧
     reduceInnerOp List.sum [(2, 0)] [(0, 1)] 0 (fun i => i) = [0, 0] := by decide
 
+/-- As coded, the fast path is reachable for one innermost axis only (the sorted axes of a
+multi-axis innermost reduction fail the `axes[i] == ndim - 1 - i` test); D4 covers the general
+condition, of which this is a special case. -/
+example : reducedInnerDims 3 [2] = some 1 ∧ reducedInnerDims 3 [1, 2] = none ∧
+    reducedInnerDims 3 [0, 1, 2] = none ∧ reducedInnerDims 1 [0] = some 1 := by decide
+
 end Reduce
+
+/-! ## TransformInputs in place -/
+
+/-- **C14 D5.** `TransformInputs::in_place_inputs` only ever offers inputs the inner operator
+offers and that no transform touches; hence in `run_in_place` (whose transform loop sees `None`
+at the in-place positions and would fail with `MissingInputs`) the transforms never hit an
+in-place slot, and the owned value handed to the inner operator is exactly the caller's. -/
+theorem c14_transform_in_place_disjoint (ips : List Nat) (specs : List PermuteSpec) :
+    ∀ i ∈ transformInPlaceInputs ips specs, i ∈ ips ∧ (i < 16 → ∀ sp ∈ specs, sp.index ≠ i) := by
+  intro i hi
+  unfold transformInPlaceInputs at hi
+  split at hi
+  · cases hi
+  · rename_i hany
+    refine ⟨hi, ?_⟩
+    intro hlt sp hsp heq
+    apply hany
+    rw [List.any_eq_true]
+    exact ⟨sp, hsp, by simp [heq, hlt, hi]⟩
+
+example : transformInPlaceInputs [0] [⟨1, none⟩] = [0] ∧ transformInPlaceInputs [0] [⟨1, none⟩, ⟨0, some [1, 0]⟩] = [] ∧
+    transformInPlaceInputs [4, 5] [⟨0, none⟩, ⟨17, none⟩] = [4, 5] := by decide
 
 end RtenVerif.Layout
